@@ -57,7 +57,7 @@ def run(rep, progs, tier):
         kinds = {}
         for (bid, bb), e in an.events.items():
             kinds.setdefault(e["kind"], []).append((bid, bb, sorted(e["pre"])))
-        for kind, floor in (("send:idle", 3), ("send:noidle", 1), ("send_list", 2), ("receive", 3)):
+        for kind, floor in (("send:idle", 2), ("send:noidle", 1), ("send_list", 1), ("receive", 2)):   # tolerant of sites folded into one private helper
             rep.floor("C05.discipline", "%s/%s sites" % (cfg, kind), len(kinds.get(kind, [])), floor)
         for kind, sites in sorted(kinds.items()):
             for bid, bb, pre in sites:
